@@ -51,6 +51,9 @@ CHECKS["C12"] = dict(engine="E-SPEC", cat="exploration",
 CHECKS["C14"] = dict(engine="E-SPEC x E-HIST", cat="exploration",
                      text="Single-Einsum hardware universe under several instance/frequency/bandwidth assignments plus all cascades of 2(-3) Einsum events over two hardware configurations (every fusion situation); the emitted program runs with stand-in models that hand out a distinct prime for every count; the metrics dictionary is compared with an independent roll-up: (A) time = sum over blocks of max over components of summed component times, over all component times present; (B) each component time = counts / (rate x instances); (C) every count handed out reaches metrics exactly once.",
                      note=HWREF + "; float division compared with exact rationals at 1e-9 relative tolerance", tech="bounded exhaustive enumeration of configurations/histories; execution with prime-valued stand-ins against an independent roll-up")
+CHECKS["C17"] = dict(engine="E-GRAM", cat="exploration",
+                     text="Exhaustive derivation of the sentences of the five grammars within structural bounds (index-expression menu with signed coefficients, rank lists of length 0-2 on inputs and output, terms of <= 3 factors incl. take() with every selector, <= 3 terms, keyword-like names; every directive kind x size x leader; rank tuples of 1-3 names; stamps; level names with instance ranges) x whitespace variants at terminal boundaries; an independent extractor reads the lark tree back and must return the generating structure (instance ranges through Architecture: N+1). Near misses (every single-token deletion/duplication/swap of base sentences plus hand-written ones that an independent recogniser places outside the language) must raise.",
+                     note="NUMBER instantiated with integer literals only; bounds as stated", tech="exhaustive grammar-based enumeration of inputs with an independent extractor/recogniser oracle")
 CHECKS["C18"] = dict(engine="E-SPEC", cat="exploration",
                      text="For each of the 15 legality rules of the statement, every injection site in a 13-member legal base set (products, sums, take, index math, 1-3 level stacks, flatten tuples of 2-3 ranks, a two-Einsum metrics cascade); parsing + HiFiber(...) must raise ValueError and return no text; the bases themselves must compile.",
                      note="injection sites bounded by the base set", tech="exhaustive fault/violation injection over a finite base set")
